@@ -2,7 +2,7 @@
 
 package rmt
 
-import "time"
+
 
 // C09.d (regular Merkle tree): the proof verifiers and root calculators never panic and never loop
 // without bound on an untrusted proof. Tree sizes and node indexes are concretised (t.Range), the
@@ -118,13 +118,12 @@ func zzRightWitnessTerminates(nodeIndex uint64, nAppend, nWitness int) bool {
 }
 
 // CalculateRootFromRightWitness / VerifyRightWitness with an arbitrary node index, append path and
-// right witness: returns (no panic) and its loop consumes its input (terminates). The termination
-// half is asserted on a replica of the loop control; the real function is then executed on the
-// terminating inputs only, where the engine's unwinding bound checks the replica from the other side;
-// in the native replay of a counterexample the real function is started and must still be running
-// after 500 ms.
+// right witness: returns (no panic) and its loop terminates. Termination is the unwinding assertion
+// itself (unwind=violation): a loop of the real function that runs more than 70 times — the node index
+// has 64 digits — is reported as a hang, and the native replay must then still be running at its
+// deadline.
 //
-//zz:opt loop=70 require=returned
+//zz:opt loop=70 require=returned unwind=violation
 //zz:quick I=32 W=2
 //zz:thorough I=64 W=32
 func zzH_C09_rmt_right_witness(t *zzT) {
@@ -133,24 +132,6 @@ func zzH_C09_rmt_right_witness(t *zzT) {
 	nw := t.Range("rightWitness.len", 0, 3)
 	appendPath := zzHashes(t, "appendPath", na, t.Param("W", 2))
 	witness := zzHashes(t, "rightWitness", nw, t.Param("W", 2))
-	terminates := zzRightWitnessTerminates(nodeIndex, na, nw)
-	if !terminates && !t.Symbolic() {
-		// native replay: the verdict of the replica is checked against the real function
-		done := make(chan struct{})
-		go func() {
-			defer func() { recover(); close(done) }()
-			CalculateRootFromRightWitness(nodeIndex, appendPath, witness)
-		}()
-		select {
-		case <-done:
-			terminates = true
-		case <-time.After(500 * time.Millisecond):
-		}
-	}
-	t.Assert(terminates, "CalculateRootFromRightWitness consumes its input (loop terminates)")
-	if !terminates {
-		return
-	}
 	VerifyRightWitness(nodeIndex, appendPath, witness, t.Bytes("root", 32))
 	t.Reach("returned")
 }
